@@ -113,6 +113,43 @@ def gen_table(rng, catch_all=False):
     return rows
 
 
+def gen_direct_table(rng):
+    """a table written out column by column, in which ANY column may lack ANY key (the CSV reader can only leave a key out
+    of the LAST columns); a column with no key at all is the documented catch-all"""
+    keys = rng.sample(KEYS, rng.randrange(2, 5))
+    toks = []
+    for _ in range(rng.randrange(1, 5)):
+        toks.append("COL")
+        for k in keys:
+            if rng.random() < 0.3:
+                continue
+            toks.append("%s:%s" % (k, gen_cell(rng, True)))
+    return toks
+
+
+def real_direct_table(toks):
+    from vc2_conformance.constraint_table import ValueSet, AnyValue
+
+    t = []
+    for tok in toks:
+        if tok == "COL":
+            t.append({})
+            continue
+        k, cell = tok.split(":")
+        if cell == "any":
+            t[-1][k] = AnyValue()
+            continue
+        vs = ValueSet()
+        for it in ([] if cell == "-" else cell.split(",")):
+            if "~" in it:
+                lo, hi = it.split("~")
+                vs.add_range(int(lo), int(hi))
+            else:
+                vs.add_value(int(it))
+        t[-1][k] = vs
+    return t
+
+
 def csv_text(rows, rng):
     """Render tokenised rows as the CSV syntax the real reader parses."""
     lines = []
@@ -353,7 +390,7 @@ class Prop(object):
     status = "full"
     rule = ("random register-machine programs over ValueSet/AnyValue (add_value, add_range incl. malformed ranges, union, contains, "
             "is_disjoint, listing of _values/_ranges) and random CSV tables (any, ditto, empty, TRUE/FALSE, ranges, comment rows) with "
-            "ALLOWED / VALUES / incremental SEQ queries (the latter through the real assert_level_constraint); distinct = distinct op lines")
+            "ALLOWED / VALUES / incremental SEQ queries (the latter through the real assert_level_constraint), the same queries on tables built directly in which any column may lack any key; distinct = distinct op lines")
     trusted = ["hand-written model lean/VC2/Model/Constraint.lean tied to the code by this correspondence",
                "csv.reader, str.partition/int (CSV tokenisation is not modelled; the harness renders tokenised cells to CSV text)"]
     assumptions = ["values are integers (bools as 0/1); Python set iteration order = any list order (theorems hold for all orders)",
@@ -376,6 +413,14 @@ class Prop(object):
             exp.append(run_ct(t, q))
             ctx.count("ct:" + q[0])
         ctx.diff("ct CSV table + queries model == read_constraints_from_csv/allowed_values_for/assert_level_constraint", lines, exp)
+        lines, exp = [], []
+        for i in range(ctx.n(2500, 40000)):
+            toks = gen_direct_table(rng)
+            q = gen_query(rng, [])
+            lines.append("dt %s | %s" % (" ".join(toks), " ".join(q)))
+            exp.append(run_ct(real_direct_table(toks), q))
+            ctx.count("dt:" + q[0])
+        ctx.diff("dt directly built tables (any column may lack any key) + queries model == allowed_values_for/is_allowed_combination/assert_level_constraint", lines, exp)
 
     def search(self, ctx):
         rng = ctx.rng("search")
